@@ -149,6 +149,15 @@ class Effects:
             if m.startswith('r') and '+' not in m:
                 return READ, OS
             return DESTROY, OS
+        if callee == 'shutil.rmtree' and call is not None:
+            # errors are handed to the onerror/onexc callback (or ignored)
+            kws = {k.arg for k in call.keywords}
+            if len(call.args) >= 3 or kws & {'onerror', 'onexc'} or (
+                    len(call.args) >= 2 and isinstance(
+                        call.args[1], ast.Constant) and call.args[1].value):
+                return DESTROY, ()
+        if callee == 'os.makedirs' and call is not None:
+            pass
         if callee in PRIMS:
             return PRIMS[callee]
         if callee.startswith('builtins.'):
